@@ -301,6 +301,9 @@ def handler(payload):
             try:
                 ob["cert"] = {"export": bytes(cb.export()).hex(), "expected_size": cb.expected_size,
                               "signature_size": getattr(cb, "signature_size", None), "kind": type(cb).__name__}
+                isk = getattr(cb, "isk_certificate", None)
+                if isk is not None and getattr(isk, "signature", None):
+                    ob["cert"]["isk_signature"] = bytes(isk.signature).hex()
             except Exception as ex:  # noqa
                 ob["cert"] = {"error": type(ex).__name__}
         if hasattr(m, "manifest") and m.manifest is not None:
@@ -394,7 +397,11 @@ def handler(payload):
             def reexport():
                 sig2 = []
                 _, m2 = make(patched(), d2, sig2, validate=False)
-                return bytes(m2.export()), sig2
+                im2 = bytes(m2.export())
+                isk2 = (observe(m2).get("cert") or {}).get("isk_signature")
+                if isk2:
+                    sig2.append(["", isk2])
+                return im2, sig2
             r2 = step(res, "reexport", reexport, seconds=30)
             if r2 is not None:
                 res["image2"] = r2[0].hex()
